@@ -318,6 +318,13 @@ def run(repo: Repo, chk: Check) -> None:
                     # the decoded object, given to the root entrypoint, yields the same parameters
                     me2 = Obj(CE, {'entrypoint': rn, 'context': ctx})
                     arg = o if root.prim == 'or' else o[rn]
+                    if rn in names:
+                        # the name the root would get belongs to a branch: the whole parameter has no entrypoint of its own, and the decoded
+                        # object {entrypoint: value} is given back to the entrypoint it names
+                        if not (isinstance(o, dict) and len(o) == 1):
+                            raise AnalysisError(f'{name}: decoded object is not a one-entry mapping: {vrepr(o)[:80]}')
+                        (k2, arg), = o.items()
+                        me2 = Obj(CE, {'entrypoint': k2, 'context': ctx})
                     p2 = i.call_function(FuncRef(eenc, me2, True), [arg], {}, None, force_inline=True)
                     return vrepr(p1), vrepr(p2)
 
